@@ -61,6 +61,10 @@ def mk(cols, tuples, carrier, n, fnkey, rng, aliases=()):
     if carrier == "counting" and rng.random() < 0.4:
         gb += " LIMIT 100"
     sql = "SELECT %s%s FROM stream GROUP BY %s" % (sel_keys + ", " if cols else "", SEL, gb)
+    if carrier == "tumbling" and cols and rng.random() < 0.3:
+        # a binding LIMIT without ORDER BY: any k of the groups - but every delivered group holds ALL the rows of its tuple
+        meta["limit"] = rng.choice([1, 2])
+        sql += " LIMIT %d" % meta["limit"]
     return {"meta": meta, "sql": sql, "rows": rows}
 
 
